@@ -251,6 +251,7 @@ def key_of(regs, drops=()):
 def run_spec(ctx, progs, bounds, n, label, rule="perthread", timeout=3000, invariants=True, chunk=300):
     """one TLC run per chunk of programs: every state carries the schedule sets collected so far, and TLC keeps one
     live state per program, so memory grows with the number of programs in a run"""
+    chunk = max(40, chunk // max(1, len(bounds) // 2))         # every bound adds a set of schedules to the state
     if len(progs) > chunk:
         out = {}
         for k in range(0, len(progs), chunk):
